@@ -338,6 +338,10 @@ func main() {
 		runC13(*seed, *count, *scheds, *dfs, *dfsCap)
 		return
 	}
+	if *prop == "C05L" {
+		runLife(*seed, *count, *scheds, *dfs, *dfsCap)
+		return
+	}
 	if *prop == "C09" {
 		runC09(*seed, *count, *scheds, *dfs, *dfsCap)
 		return
